@@ -43,7 +43,16 @@ CONTRACT_ONLY_NAMES = ["9a", "1", "9A", '"q r"', '"x"', '"a\\\\b"', '"q\\"r"', '
                        '"a\\"b\\\\c d"']
 # direct API route (SchemaDefinition built by hand): arbitrary text as field name / schema name
 API_FIELD_NAMES = ["q r", 'a"b', "a\\b", '"q r"', "x\ny", " ", "tab\there", 'a"b\\c', "\\", '"', 'say "hi" \\o/', "NAME", "K"]
-API_SCHEMA_NAMES = ['a"b\\c', "My Schema", "a\\", '"', "S", 'x "y" \\z', "été\"", "a\nb"]
+API_SCHEMA_NAMES = ['a"b\\c', "My Schema", "a\\", '"', "S", 'x "y" \\z', "été\"", "a\nb", "a\r\nb", "a\n\rb", "\n", "a\n", "\na", "a\x0bb\x0cc",
+                    "a\x1cb\x1dc\x1ed", "a\x85b", "a\u2028b\u2029c", "a\nb\r\nc\rd\x0be\x0cf\x1cg\x1dh\x1ei\x85j\u2028k\u2029l\n\nm\n", "", "INFERRED",
+                    "UNKNOWN", "名前\n二"]
+# document route: envelope names as written (the reader refuses most non-identifiers), META.TYPE source texts, extra META keys
+ENVELOPE_NAMES = ["S", "MY_SCHEMA", "Doc1", "SESSION_LOG", "INFERRED", "UNKNOWN", "lower_case", "X9", "été", "名前", "A-B", "A.B", "a b",
+                  'A"B', "A\\B", "9A", "_X"]
+TYPE_SOURCES = ["PROTOCOL_DEFINITION", "SESSION_LOG", "T", "lower_case", '"My Type"', '"a\\"b"', '"a\\"b\\\\c"', '"back\\\\slash"', '"a\\nb"',
+                '"Review \\"draft\\" log"', '"LINE1\\nLINE2"', '"tab\\there"', '" lead"', '"trail "', '"été \\"x\\""', '"名前"', '"a\\n\\nb\\n"',
+                '"\\n"', '"==="', '"x # y"', "42", "true"]
+EXTRA_META_KEYS = ["NAME", "SCHEMA", "SCHEMA_NAME", "ID", "TITLE", "DOC", "STATUS"]
 REGEX_POOL = [
     "abc", "^abc$", "^[a-z]+$", "[a-z]+", "[A-Z]", "[a-z]*", "[0-9a-f]+", "^[A-Z][a-z]+$", "[a-z]+[0-9]*",
     "a\\\\.b", "\\\\d+", "\\\\w+\\\\s*", "\\\\bword\\\\b", "(a|b)+", "(?:x|y)", "(?=z)q", "a|b", "ws|field",
@@ -59,13 +68,13 @@ SCHEMA_NAMES = ["S", "MY_SCHEMA", "Doc1", "SESSION_LOG"]
 CONTRACT_TYPES = ["SESSION_LOG", "T", '"My Type"', '"a\\"b"', "lower_case", '"été"', '"a\\"b\\\\c"', '"back\\\\slash"',
                   '"a\\nb"']
 
-# clause bit -> listed finding.  Bit 3 (field name) has NO finding since repo 481c8b3 (names are escaped; what is left
-# of the clause is a NUL in the name, which no reader produces).  Bit 4 (schema name) is attributed only when the name
-# really contains a line break (header comment); quote / backslash in the name are no excuse any more.
+# clause bit -> listed finding.  Bits 3 (field name) and 4 (schema name) have NO finding: since repo 481c8b3 names are
+# escaped inside literals and since b75eb16 the header comment shows the schema name on one line; what is left of both
+# clauses is a NUL in a name, which no reader produces.  Quote / backslash / line break in a name excuse nothing.
 FINDING_OF_BIT = {0: "C12-underscore-rule-name", 1: "C12-sanitise-collision", 2: "C12-structural-name",
-                  4: "C12-schema-name-line-break", 5: "C12-regex-passthrough"}
+                  5: "C12-regex-passthrough"}
 # failure kind (wf code in the `_`-tolerant dialect) -> clause bits that can explain it
-EXPLAINS = {1: (4, 5), 3: (5,), 4: (1, 2), 5: (5,), 2: ()}
+EXPLAINS = {1: (5,), 3: (5,), 4: (1, 2), 5: (5,), 2: ()}
 CODE_NAME = {0: "ok", 1: "does-not-parse", 2: "root-missing", 3: "undefined-reference", 4: "duplicate-rule",
              5: "empty-alternative"}
 
@@ -148,22 +157,66 @@ def enc_cst(c):
     return "Z"
 
 
-def enc_schema(schema):
-    """SchemaDefinition -> tokens `<name> <upper> {<fname> <flower> <chain>}` or None when out of model."""
-    if not isinstance(schema.name, str):
-        return None
-    toks = [enc_str(schema.name), enc_str(schema.name.upper())]
+def enc_fields(schema):
+    """fields of a SchemaDefinition -> tokens `{<fname> <flower> <chain>}` ('' for no field) or None when out of model."""
+    toks = []
     for fname, fd in schema.fields.items():
+        if not isinstance(fname, str):
+            return None
         if fd.pattern and fd.pattern.constraints:
             cs = fd.pattern.constraints.constraints
             ch = ",".join(enc_cst(c) for c in cs) if cs else "="
         else:
             ch = "~"
         toks += [enc_str(fname), enc_str(fname.lower()), ch]
-    s = " ".join(toks)
-    if any(0xD800 <= ord(ch) <= 0xDFFF for ch in schema.name + "".join(schema.fields)):
+    if any(0xD800 <= ord(ch) <= 0xDFFF for ch in "".join(schema.fields)):
         return None
-    return s
+    return " ".join(toks)
+
+
+def enc_named(name, fenc):
+    """model input `<name> <upper> {fields}`; name is the MODEL's schema name for the route."""
+    if fenc is None or not isinstance(name, str) or any(0xD800 <= ord(ch) <= 0xDFFF for ch in name):
+        return None
+    return " ".join([enc_str(name), enc_str(name.upper())] + ([fenc] if fenc else []))
+
+
+def nameq_tok(q):
+    """name query -> driver line.  ('doc', envelope name as written | None)  ('meta', META TYPE value | None)  ('raw', name)"""
+    kind, v = q
+    if kind == "doc":
+        return "docname " + ("~" if v is None else enc_str(v))
+    if kind == "meta":
+        return "metaname " + ("~" if v is None else enc_str(v))
+    return None
+
+
+def document_text(env_name, type_src, contract_specs, fields, extra_meta=(), with_meta=True):
+    """Schema document: optional ===NAME=== envelope, optional META (TYPE source text, extra keys, CONTRACT), optional FIELDS."""
+    lines = []
+    if env_name is not None:
+        lines.append(f"==={env_name}===")
+    if with_meta:
+        lines.append("META:")
+        if type_src is not None:
+            lines.append(f"  TYPE::{type_src}")
+        lines.append('  VERSION::"1.0"')
+        for k, v in extra_meta:
+            lines.append(f"  {k}::{v}")
+        if contract_specs is not None:
+            lines.append("  CONTRACT::[" + ", ".join(contract_specs) + "]")
+    if fields is not None:
+        lines += ["", "FIELDS:"] if with_meta else ["FIELDS:"]
+        for fn, chain in fields:
+            lines.append(f"  {fn}::[" + "∧".join(['"x"'] + list(chain)) + "]")
+    if env_name is not None:
+        lines.append("===END===")
+    lines.append("")
+    return "\n".join(lines)
+
+
+def contract_specs_of(fields):
+    return [f"FIELD[{fn}]::" + ("∧".join(chain) if chain else "OPT") for fn, chain in fields]
 
 
 def schema_from_meta(meta):
@@ -478,8 +531,6 @@ def classify(ctx, case, text, strict, lenient, clauses, model_text_equal, sname=
     """Report a not-well-formed grammar. strict/lenient: wf codes; clauses: bit mask or None."""
     what = f"grammar is not well-formed GBNF: {CODE_NAME[strict]}"
     bits = [b for b in range(7) if clauses is not None and (clauses >> b) & 1 and b in FINDING_OF_BIT]
-    if 4 in bits and not (isinstance(sname, str) and ("\n" in sname or "\r" in sname)):
-        bits.remove(4)
     reported = False
     if model_text_equal and clauses is not None:
         if strict == 1 and 0 in bits:
@@ -513,6 +564,29 @@ def check_texts(ctx, have_model, records):
                 if a[0] != b[0] or (a[0] != 1 and (a[1] != b[1] or sorted(a[2]) != sorted(b[2]))):
                     ctx.correspondence_failure({"text": t, "ref": a, "model": b},
                                                f"extracted recogniser and reference llama.cpp transcription disagree ({nm})")
+    # the schema name of each route is computed by the MODEL (envelope name as written / META TYPE value -> name)
+    if have_model:
+        qs = sorted({r["nameq"] for r in records if r.get("nameq") and r["nameq"][0] != "raw"}, key=repr)
+        res = run_driver("gbnf", [nameq_tok(q) for q in qs]) if qs else []
+        mname = {q: dec_str(x) for q, x in zip(qs, res)}
+        seen_name_diff = set()
+        for r in records:
+            q = r.get("nameq")
+            if not q:
+                r["schema_enc"] = None
+                continue
+            name = q[1] if q[0] == "raw" else mname[q]
+            r["model_name"] = name
+            r["schema_enc"] = enc_named(name, r["fenc"])
+            ctx.hist("name_route", q[0] + ("" if q[0] == "raw" else (":absent" if q[1] is None else ":given")))
+            if "impl_name" in r and r["impl_name"] != name and (q, repr(r["impl_name"])) not in seen_name_diff:
+                seen_name_diff.add((q, repr(r["impl_name"])))
+                ctx.correspondence_failure({"case": r["case"], "surface": r["surface"], "route": list(q),
+                                            "impl_schema_name": repr(r["impl_name"]), "model_schema_name": name},
+                                           "SchemaDefinition.name of the implementation differs from the name the model computes for this route")
+    else:
+        for r in records:
+            r["schema_enc"] = None
     # clauses per (schema, env)
     keys = sorted({(r["schema_enc"], r["env"]) for r in records if r["schema_enc"] is not None})
     clauses = {}
@@ -544,13 +618,13 @@ def check_texts(ctx, have_model, records):
                 ctx.correspondence_failure({"case": r["case"], "text": t, "code": strict},
                                            "safe_schema holds but the grammar is not well-formed (contradicts compile_wf)")
         if strict != 0:
-            classify(ctx, {"surface": r["surface"], "input": r["case"], "grammar": t}, t, strict, lenient, cl, bool(same),
-                     r.get("sname"))
+            classify(ctx, {"surface": r["surface"], "input": r["case"], "grammar": t}, t, strict, lenient, cl, bool(same))
     return len(texts)
 
 
 def run(ctx):
     from octave_mcp.core.gbnf_compiler import GBNFCompiler, compile_gbnf_from_meta
+    from octave_mcp.core.grammar import compile_document_grammar, emit_grammar_for_schema
     from octave_mcp.core.parser import parse
     from octave_mcp.core.schema_extractor import extract_schema_from_document
     have_model = ctx.build_status["drivers"].get("gbnf", False)
@@ -561,101 +635,133 @@ def run(ctx):
         "schemas: 1-5 fields, names drawn from a %d-name sanitisation pool (case/dot/slash/hyphen/underscore collisions, "
         "unicode, leading digits, structural rule names) mixed with %d clean names; chains of 0-3 members over all constraint "
         "kinds with REGEX patterns from a %d-pattern pool (literals, escapes, groups, alternation, braces, classes, anchors, "
-        "malformed); FIELDS route, META.CONTRACT route (quoted FIELD names and quoted TYPE: double quotes, backslashes, blanks, "
+        "malformed); schema DOCUMENTS with every part optional (envelope line from a %d-name pool or absent, META absent / "
+        "with TYPE from %d source texts (identifiers, quoted text with quote, backslash, blank, tab, line break, non-ASCII, "
+        "number, boolean) or without TYPE, extra META keys with hostile text, CONTRACT and / or FIELDS block or neither) "
+        "through compile_schema(extract_schema_from_document) with and without envelope, compile_gbnf_from_meta, "
+        "compile_document_grammar, octave_compile_grammar, octave_eject(format=gbnf); the schema NAME fed to the model is "
+        "computed by the model for each route (envelope name as written / META TYPE value); emit_grammar_for_schema; "
+        "FIELDS route, META.CONTRACT route (quoted FIELD names and quoted TYPE: double quotes, backslashes, blanks, "
         "tab, line break inside the name) and hand-built SchemaDefinition (API route: arbitrary text as field / schema name, "
         "%d + %d pool names plus random strings over letters, blank, quote, backslash, tab); with and without envelope; plus "
         "every pool name alone and every pool pattern alone. Every grammar text returned by each surface is checked. "
         "distinct/non-trivial = distinct grammar text with at least one field rule"
-        % (len(SAN_NAMES) + len(CONTRACT_ONLY_NAMES), len(CLEAN_NAMES), len(REGEX_POOL), len(API_FIELD_NAMES), len(API_SCHEMA_NAMES)))
+        % (len(SAN_NAMES) + len(CONTRACT_ONLY_NAMES), len(CLEAN_NAMES), len(REGEX_POOL), len(ENVELOPE_NAMES), len(TYPE_SOURCES),
+           len(API_FIELD_NAMES), len(API_SCHEMA_NAMES)))
 
-    def add(surface, text, case, schema_enc, env, sname=None):
+    def add(surface, text, case, fenc, env, nameq=None, impl_name=None):
         if text is None:
             ctx.hist("no_grammar_returned", surface)
             return
         if not isinstance(text, str):
             ctx.property_failure({"surface": surface, "input": case}, f"grammar is not a string: {type(text).__name__}")
             return
-        records.append({"text": text, "surface": surface, "case": case, "schema_enc": schema_enc, "env": env, "sname": sname})
+        rec = {"text": text, "surface": surface, "case": case, "fenc": fenc, "env": env, "nameq": nameq}
+        if impl_name is not None:
+            rec["impl_name"] = impl_name
+        records.append(rec)
         if '"::" ws' in text:
             ctx.nontrivial(text)
 
-    def do_fields(name, fields, full):
-        doc = fields_doc(name, fields)
-        case = {"route": "FIELDS", "document": doc}
+    S_X = "compile_schema(extract_schema_from_document(doc), env=%s)"
+    S_M = "compile_schema(<schema of compile_gbnf_from_meta>, env=%s)"
+
+    def do_document(doc, case, env_name, hint_name=None):
+        """Every way a grammar is obtained from a schema DOCUMENT.  env_name: the envelope name as written (None: no envelope
+        line).  The schema name the model uses is computed by the model from env_name (extractor route) or from the META TYPE
+        value (compile_gbnf_from_meta route); the tools take the second route iff META has a CONTRACT key."""
         try:
             d = parse(doc)
         except Exception as e:  # schema reader refuses: nothing is compiled
             ctx.hist("reader_refused", type(e).__name__)
-            return
-        schema = extract_schema_from_document(d)
-        enc = enc_schema(schema)
-        ctx.hist("fields_in_schema", len(schema.fields))
-        for env in (True, False):
+            return False
+        ctx.hist("doc_shape", ("envelope" if env_name is not None else "no-envelope") + ("+META" if d.meta else "")
+                 + ("+TYPE" if d.meta and "TYPE" in d.meta else "") + ("+CONTRACT" if d.meta and "CONTRACT" in d.meta else "")
+                 + ("+FIELDS" if "FIELDS:" in doc else ""))
+        # (1) extractor route
+        q_x = ("doc", env_name)
+        schema_x = fenc_x = None
+        try:
+            schema_x = extract_schema_from_document(d)
+            fenc_x = enc_fields(schema_x)
+            ctx.hist("fields_in_schema", len(schema_x.fields))
+        except Exception as e:
+            ctx.hist("compile_raised", type(e).__name__)
+        if schema_x is not None:
+            for env in (True, False):
+                try:
+                    add(S_X % env, GBNFCompiler().compile_schema(schema_x, include_envelope=env), case, fenc_x, env, q_x, schema_x.name)
+                except Exception as e:
+                    ctx.hist("compile_raised", type(e).__name__)
+        # (2) META route (any META: CONTRACT absent gives a schema without fields named by TYPE)
+        q_m = schema_m = fenc_m = None
+        specs = []
+        if d.meta:
+            ty = d.meta["TYPE"] if "TYPE" in d.meta else None
+            q_m = ("meta", ty) if (ty is None or isinstance(ty, str)) else None
+            if q_m is None:
+                ctx.hist("out_of_model", "META TYPE is " + type(ty).__name__)
             try:
-                add(f"GBNFCompiler.compile_schema(env={env})", GBNFCompiler().compile_schema(schema, include_envelope=env), case, enc, env,
-                    schema.name)
+                schema_m, specs = schema_from_meta(d.meta)
+                fenc_m = enc_fields(schema_m)
             except Exception as e:
                 ctx.hist("compile_raised", type(e).__name__)
-        add("octave_compile_grammar(content)", surf.compile_tool(doc), case, enc, True, schema.name)
-        add("octave_eject(format=gbnf)", surf.eject(doc), case, enc, True, schema.name)
-        if full:
-            for hname, g in surf.hints(doc, name).items():
-                add(hname, g, case, enc, True, schema.name)
+                schema_m, specs, fenc_m = None, [], None
+            # CONTRACT spec splitting: model of parse_contract_field vs implementation
+            if have_model and specs:
+                from octave_mcp.core.gbnf_compiler import _CONTRACT_FIELD_PATTERN
+                ok_specs = [s for s in specs if not any(ch.isspace() and ord(ch) > 127 for ch in s)]
+                res = run_driver("gbnf", [f"ctr {enc_str(s)}" for s in ok_specs])
+                for s, r in zip(ok_specs, res):
+                    ctx.count()
+                    s2 = s.strip()
+                    m = _CONTRACT_FIELD_PATTERN.match(s2)
+                    if not m or not m.group(1).strip():
+                        want = "INVALID"
+                    else:
+                        cs = m.group(2).strip()
+                        want = "OK " + enc_str(m.group(1).strip()) + " " + (enc_str(cs) if cs else "~")
+                    if r != want:
+                        ctx.correspondence_failure({"spec": s, "impl": want, "model": r}, "CONTRACT field spec split differs from the model")
+            iname = schema_m.name if schema_m is not None and isinstance(schema_m.name, str) else None
+            for sname, fn in (("compile_gbnf_from_meta", compile_gbnf_from_meta), ("compile_document_grammar", compile_document_grammar)):
+                try:
+                    add(sname, fn(d.meta), case, fenc_m, True, q_m, iname)
+                except Exception as e:
+                    ctx.hist("compile_raised", type(e).__name__)
+            if schema_m is not None:
+                for env in (True, False):
+                    try:
+                        add(S_M % env, GBNFCompiler().compile_schema(schema_m, include_envelope=env), case, fenc_m, env, q_m, iname)
+                    except Exception as e:
+                        ctx.hist("compile_raised", type(e).__name__)
+        # (3) the tools: META.CONTRACT present -> META route, else extractor route
+        if d.meta and "CONTRACT" in d.meta:
+            fenc_t, q_t = fenc_m, q_m
+        else:
+            fenc_t, q_t = fenc_x, q_x
+        for sname, fn in (("octave_compile_grammar(content)", surf.compile_tool), ("octave_eject(format=gbnf)", surf.eject)):
+            try:
+                add(sname, fn(doc), case, fenc_t, True, q_t)
+            except Exception as e:
+                ctx.hist("tool_raised", type(e).__name__)
+        if hint_name is not None:
+            for hname, g in surf.hints(doc, hint_name).items():
+                add(hname, g, case, fenc_x, True, q_x)
+        return True
+
+    def do_fields(name, fields, full):
+        doc = fields_doc(name, fields)
+        do_document(doc, {"route": "FIELDS", "document": doc}, name, name if full else None)
 
     def do_contract(tname, fields):
         doc = contract_doc(tname, fields)
-        case = {"route": "CONTRACT", "document": doc}
-        try:
-            d = parse(doc)
-        except Exception as e:
-            ctx.hist("reader_refused", type(e).__name__)
-            return
-        if not (d.meta and "CONTRACT" in d.meta):
-            ctx.hist("reader_refused", "no CONTRACT in META")
-            return
-        try:
-            schema, specs = schema_from_meta(d.meta)
-            enc = enc_schema(schema)
-        except Exception as e:
-            ctx.hist("compile_raised", type(e).__name__)
-            schema, specs, enc = None, [], None
-        # CONTRACT spec splitting: model of parse_contract_field vs implementation
-        if have_model and specs:
-            from octave_mcp.core.gbnf_compiler import _CONTRACT_FIELD_PATTERN
-            ok_specs = [s for s in specs if not any(ch.isspace() and ord(ch) > 127 for ch in s)]
-            res = run_driver("gbnf", [f"ctr {enc_str(s)}" for s in ok_specs])
-            for s, r in zip(ok_specs, res):
-                ctx.count()
-                s2 = s.strip()
-                m = _CONTRACT_FIELD_PATTERN.match(s2)
-                if not m or not m.group(1).strip():
-                    want = "INVALID"
-                else:
-                    cs = m.group(2).strip()
-                    want = "OK " + enc_str(m.group(1).strip()) + " " + (enc_str(cs) if cs else "~")
-                if r != want:
-                    ctx.correspondence_failure({"spec": s, "impl": want, "model": r}, "CONTRACT field spec split differs from the model")
-        sn = schema.name if schema is not None else None
-        try:
-            add("compile_gbnf_from_meta", compile_gbnf_from_meta(d.meta), case, enc, True, sn)
-        except Exception as e:
-            ctx.hist("compile_raised", type(e).__name__)
-        if schema is not None:
-            # the same SchemaDefinition straight through compile_schema, with and without envelope
-            for env in (True, False):
-                try:
-                    add(f"GBNFCompiler.compile_schema(env={env})", GBNFCompiler().compile_schema(schema, include_envelope=env),
-                        case, enc, env, sn)
-                except Exception as e:
-                    ctx.hist("compile_raised", type(e).__name__)
-        try:
-            add("octave_compile_grammar(content)", surf.compile_tool(doc), case, enc, True, sn)
-        except Exception as e:
-            ctx.hist("tool_raised", type(e).__name__)
-        try:
-            add("octave_eject(format=gbnf)", surf.eject(doc), case, enc, True, sn)
-        except Exception as e:
-            ctx.hist("tool_raised", type(e).__name__)
+        do_document(doc, {"route": "CONTRACT", "document": doc}, "D")
+
+    def do_doc(env_name, type_src, contract_fields, fields, extra_meta=(), with_meta=True):
+        doc = document_text(env_name, type_src, None if contract_fields is None else contract_specs_of(contract_fields), fields,
+                            extra_meta, with_meta)
+        return do_document(doc, {"route": "DOCUMENT", "document": doc, "envelope": env_name}, env_name)
 
     def do_api(sname, fields):
         """SchemaDefinition built by hand (any text as schema name / field name) -> compile_schema, both envelope modes."""
@@ -672,20 +778,25 @@ def run(ctx):
                 continue
             schema.fields[fn] = FieldDefinition(name=fn, pattern=HolographicPattern(example=None, constraints=cons, target=None),
                                                 raw_value="∧".join(ch))
-        enc = enc_schema(schema)
+        enc = enc_fields(schema)
         ctx.hist("fields_in_schema", len(schema.fields))
         for env in (True, False):
             try:
                 add(f"GBNFCompiler.compile_schema(env={env})", GBNFCompiler().compile_schema(schema, include_envelope=env), case, enc, env,
-                    sname)
+                    ("raw", sname))
+            except Exception as e:
+                ctx.hist("compile_raised", type(e).__name__)
+        if not schema.fields:
+            try:
+                add("emit_grammar_for_schema", emit_grammar_for_schema(sname), case, "", True, ("raw", sname))
             except Exception as e:
                 ctx.hist("compile_raised", type(e).__name__)
 
+    TOOLS = {"octave_compile_grammar(content)", "octave_eject(format=gbnf)"}
     MUST_SURFACES = {
-        "CONTRACT": {"compile_gbnf_from_meta", "GBNFCompiler.compile_schema(env=True)", "GBNFCompiler.compile_schema(env=False)",
-                     "octave_compile_grammar(content)", "octave_eject(format=gbnf)"},
-        "FIELDS": {"GBNFCompiler.compile_schema(env=True)", "GBNFCompiler.compile_schema(env=False)",
-                   "octave_compile_grammar(content)", "octave_eject(format=gbnf)"},
+        "CONTRACT": {"compile_gbnf_from_meta", "compile_document_grammar", S_M % True, S_M % False, S_X % True, S_X % False} | TOOLS,
+        "FIELDS": {S_X % True, S_X % False, "compile_gbnf_from_meta", "compile_document_grammar"} | TOOLS,
+        "DOCUMENT": {S_X % True, S_X % False} | TOOLS,
         "API": {"GBNFCompiler.compile_schema(env=True)", "GBNFCompiler.compile_schema(env=False)"},
     }
 
@@ -713,6 +824,10 @@ def run(ctx):
                         do_contract(w.get("type", "T"), [tuple(x) for x in w["fields"]])
                     elif w.get("route") == "API":
                         do_api(w.get("schema_name", "S"), [tuple(x) for x in w["fields"]])
+                    elif w.get("route") == "DOCUMENT":
+                        do_doc(w.get("envelope"), w.get("type"), None if w.get("contract") is None else [tuple(x) for x in w["contract"]],
+                               None if w.get("fields") is None else [tuple(x) for x in w["fields"]],
+                               [tuple(x) for x in w.get("extra_meta", [])], w.get("with_meta", True))
                     if w.get("expect") == "wf":
                         must.append((fn, w, n0, len(records)))
         # must-pass regressions (witnesses of findings fixed in /repo): every surface of the route returns a grammar, each
@@ -744,6 +859,22 @@ def run(ctx):
             do_contract(tn, [])
         do_fields("S", [], False)
         do_contract("T", [])
+        # ---- document route: every TYPE source x envelope / no envelope x CONTRACT / FIELDS / both / neither ----
+        F1 = [("NAME", ["REQ"]), ("STATUS", ["OPT", "ENUM[A,B]"])]
+        for ts in TYPE_SOURCES + [None]:
+            for en in ("SESSION", None):
+                do_doc(en, ts, None, F1)
+                do_doc(en, ts, F1, None)
+            do_doc(None, ts, F1[:1], F1[1:])
+            do_doc(None, ts, None, None)
+        for en in ENVELOPE_NAMES:
+            do_doc(en, '"a\\"b\\\\c\\nd"', None, F1)
+            do_doc(en, "T", F1, None)
+        for k in EXTRA_META_KEYS:
+            for en in ("SESSION", None):
+                do_doc(en, "T", None, F1, [(k, '"x\\"y\\\\z\\nw"')])
+        do_doc(None, None, None, F1, (), False)
+        do_doc("S", None, None, F1, (), False)
         for nm in API_FIELD_NAMES:
             do_api("S", [(nm, ["REQ"])])
         for sn in API_SCHEMA_NAMES:
@@ -755,7 +886,7 @@ def run(ctx):
                 from octave_mcp.schemas.loader import load_schema_by_name
                 sd = load_schema_by_name(nm)
                 add("octave_compile_grammar(schema)", surf.compile_tool_named(nm), {"route": "packaged", "schema": nm},
-                    enc_schema(sd) if sd is not None else None, True)
+                    enc_fields(sd) if sd is not None else None, True, ("raw", sd.name) if sd is not None else None)
             except Exception as e:
                 ctx.hist("tool_raised", type(e).__name__)
         # ---- generated schemas ----
@@ -770,8 +901,22 @@ def run(ctx):
                 for m in ch:
                     ctx.hist("member_kind", m.split("[")[0])
             route = rng.random()
-            if route < 0.45:
+            if route < 0.25:
                 do_fields(rng.choice(SCHEMA_NAMES), fields, full=(i % 6 == 0))
+            elif route < 0.5:
+                # schema DOCUMENT with every part optional and hostile text wherever the reader takes free text
+                en = rng.choice([None, None, rng.choice(ENVELOPE_NAMES[:8]), rng.choice(ENVELOPE_NAMES)])
+                ts = rng.choice([None] + TYPE_SOURCES + TYPE_SOURCES[4:])
+                shape = rng.choice(["fields", "fields", "contract", "both", "neither"])
+                extra = [(rng.choice(EXTRA_META_KEYS), rng.choice(TYPE_SOURCES[4:])) for _ in range(rng.choice([0, 0, 1, 2]))]
+                cf = ff = None
+                if shape in ("contract", "both"):
+                    cf = list(fields)
+                    if rng.random() < 0.3:
+                        cf.append((rng.choice(CONTRACT_ONLY_NAMES), gen_chain(rng)))
+                if shape in ("fields", "both"):
+                    ff = list(fields) if shape == "fields" else [(rng.choice(CLEAN_NAMES), gen_chain(rng))]
+                do_doc(en, ts, cf, ff, extra, with_meta=(rng.random() < 0.9 or cf is not None))
             elif route < 0.85:
                 if rng.random() < 0.35:
                     fields.append((rng.choice(CONTRACT_ONLY_NAMES), gen_chain(rng)))
@@ -782,8 +927,8 @@ def run(ctx):
                     nm = rng.choice(API_FIELD_NAMES) if rng.random() < 0.6 else \
                         "".join(rng.choice('aZ9 "\\\t-.é') for _ in range(rng.randint(1, 6)))
                     fields.append((nm, [m for m in gen_chain(rng) if not m.startswith("REGEX")]))
-                sn = rng.choice(API_SCHEMA_NAMES[:-1]) if rng.random() < 0.7 else \
-                    "".join(rng.choice('aZ9 "\\-.é') for _ in range(rng.randint(1, 6)))
+                sn = rng.choice(API_SCHEMA_NAMES) if rng.random() < 0.7 else \
+                    "".join(rng.choice('aZ9 "\\-.é\n\r\x0c\x85\u2028') for _ in range(rng.randint(0, 6)))
                 do_api(sn, fields)
         n_texts = check_texts(ctx, have_model, records)
         ctx.extra["distinct_grammar_texts"] = n_texts
@@ -828,6 +973,14 @@ def run(ctx):
                     ctx.correspondence_failure({"s": x}, "_escape_literal differs")
                 if res[len(strs) + i] != enc_str(x) + " " + enc_str(" r"):
                     ctx.correspondence_failure({"s": x, "model": res[len(strs) + i]}, "escaped literal is not re-read as the original by the literal scanner")
+            ols = sorted(set(API_SCHEMA_NAMES + ["".join(rng.choice("ab \n\r\x0b\x0c\x1c\x1d\x1e\x85\u2028\u2029\t\x1f\u2027") for _ in range(rng.randint(0, 8)))
+                                                 for _ in range(ctx.scale(800, 8000))]))
+            res = run_driver("gbnf", [f"oneline {enc_str(x)}" for x in ols])
+            for x, r in zip(ols, res):
+                ctx.count()
+                if dec_str(r) != " ".join(x.splitlines()):
+                    ctx.correspondence_failure({"s": x, "impl": " ".join(x.splitlines()), "model": dec_str(r)},
+                                               "' '.join(s.splitlines()) differs from the model's one_line")
             from octave_mcp.core.constraints import RegexConstraint
             pats = sorted(set([p.replace("\\\\", "\\") for p in REGEX_POOL] + ["".join(rng.choice("ab.[]^$+*?(|)\\d-{}, \n") for _ in range(rng.randint(0, 7))) for _ in range(ctx.scale(800, 8000))]))
             ok_p = []
